@@ -14,7 +14,11 @@
 EXTENDS Naturals, Sequences, FiniteSets, TLC, Json
 
 CONSTANTS
-    SenderOps,    \* [sender -> sequence of ops]; op \in {"send", "try", "block0", "blockInf", "blockTokio", "weCb", "weCbPanic"}
+    SenderOps,    \* [sender -> sequence of ops]; op \in {"send", "sendS", "try", "block0", "blockInf", "blockTokio", "weCb", "weCbPanic"}
+                  \* ("sendS": a plain send issued from INSIDE a metrics sampler, i.e. while `metric_source().sample_metrics(..)` of
+                  \*  this very channel is handing its metrics to the caller's sampler - a reporter whose destination is the emitter it
+                  \*  describes.  The sampler's own critical section only reads the queue length and is over before the sampler runs, so
+                  \*  at this level the op is the ordinary Send; code that still holds the state lock there deadlocks on itself.)
                   \*  blockTokio: the async tokio::send without timeout (same steps as blockInf)
                   \*  weCb: a raw when_empty with an observed callback (at most one per sender)
     FlusherOps,   \* [flusher -> "flush0" | "flushInf" | "flushInfSame" | "flushTokio" | "cbPanic" | "cbPark"]
@@ -135,7 +139,7 @@ NextOp(s) ==
 \* Sender::send - one critical section.  In the code's order: truncate-and-count when the
 \* queue is full, *then* the closed check, then push.
 Send(s) ==
-    /\ senderAlive /\ spc[s] = "op" /\ Op(s) = "send"
+    /\ senderAlive /\ spc[s] = "op" /\ Op(s) \in {"send", "sendS"}
     /\ LET full == Len(pending) >= Cap
            p1 == IF full THEN <<>> ELSE pending
            st1 == IF full THEN SetStatus(status, SeqSet(pending), "trunc") ELSE status
@@ -542,7 +546,7 @@ CallbackOnce ==
           f \notin SeqSet(pendFlush) \cup SeqSet(curFlush) \cup SeqSet(cbRest)
 \* Send is never disabled by the receiver's state (C09: the caller is never made to wait)
 SendNeverWaits ==
-    \A s \in Senders : (senderAlive /\ spc[s] = "op" /\ Op(s) = "send") => ENABLED Send(s)
+    \A s \in Senders : (senderAlive /\ spc[s] = "op" /\ Op(s) \in {"send", "sendS"}) => ENABLED Send(s)
 
 (* C08 liveness, under FairSpec *)
 Alive == rpc # "dead"
